@@ -461,8 +461,12 @@ def fill(line):
 
 C06_HEAD = [f'{FUN} one(a) {{ {RET} a; }}', f'{FUN} probe() {{ {P} "PROBE"; {RET} {N["input"]}("PROMPT"); }}', f'{P} "B0";']
 
+# what precedes the program: nothing, a blank line, comments, a block comment and a string literal spanning lines
+# (the line of the diagnostic must count every one of these lines)
+C06_PADS = [[], [''], ['// note', ''], ['/* block', '   comment */'], ['"first', 'second', 'third";'], ['/* a', '*/ /* b', '*/', '"x', '";']]
+
 def c06_program(lines, pad):
-    head = [''] * pad + C06_HEAD
+    head = C06_PADS[pad] + C06_HEAD
     tail = [f'{P} "A-end";', 'probe();']
     return head + lines + tail
 
@@ -485,10 +489,10 @@ def c06(tier, rng):
                     body = [f'{FOR} ({VAR} q = 0; q < 2; q = q + 1) {{'] + body + ['}']; pre_lines = 1
                 elif w == 'fun':
                     body = [f'{FUN} wrapper() {{'] + body + ['}', 'wrapper();']; pre_lines = 1
-                pad = k % 3
+                pad = k % len(C06_PADS)
                 k += 1
                 lines = c06_program(body, pad)
-                line_no = pad + len(C06_HEAD) + pre_lines + fl + 1
+                line_no = len(C06_PADS[pad]) + len(C06_HEAD) + pre_lines + fl + 1
                 src = '\n'.join(lines) + '\n'
                 note = {'fault': fname, 'position': tname, 'wrap': w, 'line': line_no, 'message': fmsg}
                 cases.append(prog_case(src, 'planted-fault', stdin=b'L1\nL2\nL3\n', note=note))
@@ -767,13 +771,37 @@ def c13(tier, rng):
         t = open(f, encoding='utf-8').read()
         if NAT['clock'] not in t:
             progs.append(t)
+    # programs that overwrite whatever a run could conceivably leave behind for the next one in the same process:
+    # every built-in name, the program's own globals, a runtime error followed by nothing
+    for name in NAT.values():
+        progs.append(f'{P} {name};
+{name} = 7;
+{P} {name};
+')
+        progs.append(f'{name} = nil;
+{P} {name};
+{P} {N["len"]}([1, 2, 3]);
+{P} {N["max"]}(1, 2);
+')
+    progs.append(f'{VAR} g = 1;
+{FUN} bump() {{ g = g + 1; {RET} g; }}
+{P} bump();
+{P} bump();
+{P} nope;
+')
+    progs.append(f'{P} "before";
+{P} 1 / 0;
+')
+    progs.append(f'{P} {N["input"]}("? ");
+{P} {N["input"]}();
+')
     for j, src in enumerate(progs):
         for k in range(reps):
             cases.append(prog_case(src, 'repeat-in-process', stdin=b'7\nx\n', group=f'p{j}'))
         if j % (3 if tier == 'quick' else 1) == 0:
             for k in range(reps // 2):
                 cli.append(CliCase('repeat-fresh-process', ['p.bn'], {'p.bn': src.encode()}, b'7\nx\n', 'p.bn', note=j))
-    rule = (f'{len(progs)} programs (object-operation sequences over a key pool with case-only and length differences, object literals whose initialisers print, random programs, the shipped examples without ক্লক) '
+    rule = (f'{len(progs)} programs (object-operation sequences over a key pool with case-only and length differences, object literals whose initialisers print, random programs, the shipped examples without ক্লক, programs that overwrite every built-in name or end in an error) '
             f'each run {reps}x in one process and {reps // 2}x in fresh processes; stdout, stderr and status must be byte-identical across runs and equal to the model. Non-trivial = all.')
     return {'cases': cases, 'cli': cli, 'rule': rule, 'exhaustive': False, 'oracles': [oracle_repeat_equal], 'cli_oracles': [cli_oracle_repeat]}
 
@@ -932,8 +960,21 @@ def c15(tier, rng):
         cases.append(prog_case(f'{P} {q};\n{P} [{q}, {q}];\n{P} {{k: {q}}};\n{P} "" + {q};\n{P} {q} + 1;\n{P} [[{q}]];\n', 'string', note=s_))
     cases.append(prog_case(f'{P} nil;\n{P} {TRUE};\n{P} {FALSE};\n{P} [nil, {TRUE}, {FALSE}, [], {{}}];\n{P} {{b: nil, aa: [1, "x", {{c: 2}}]}};\n{FUN} fn() {{}}\n{P} fn;\n{P} [fn, {N["len"]}, {N["clock"]}];\n{P} {N["input"]};\n', 'constants'))
     cases.append(prog_case(f'{P} 1;{P} 2;\n{P} "a\nb";\n', 'newline-per-print'))
+    # several values in one run: what one print shows must not depend on what was printed before
+    # (values that compare equal but print differently, repeated values, the same value in different positions)
+    seqs = [['0', '-0'], ['-0', '0'], ['0', '-0', '0', '[0, -0]', '[-0, 0]', '"" + (-0)', '"" + 0'], ['1', '1.0', '"1"', '1'], ['"a"', '"a"', '["a"]', '"a"'],
+            ['1000000', '999999', '1000000', '"" + 1000000'], ['0.1 + 0.2', '0.3', '0.1 + 0.2'], ['[]', '[]', '{}', '{}'], ['nil', '[nil]', 'nil'],
+            ['10 ** 400', '-(10 ** 400)', '10 ** 400'], ['10 ** 400 - 10 ** 400', '0', '10 ** 400 - 10 ** 400']]
+    for sq in seqs:
+        cases.append(prog_case(''.join(f'{P} {e};\n' for e in sq), 'print-sequence'))
+    lits = [l for l in (lit(b_) for b_ in bitsl[:400]) if l is not None]
+    for i in range(200 if tier == 'quick' else 5000):
+        r = rng.fork(900000 + i)
+        sq = [r.choice(lits) for _ in range(2 + r.below(5))]
+        sq = sq + sq[:2]
+        cases.append(prog_case(''.join(f'{P} {e};\n' for e in sq), 'print-sequence'))
     rule = (f'{len(bitsl)} doubles (boundary list, powers of ten +-1 ulp around both exponent switches, {n} seeded random, written as exact decimal literals) printed alone, spliced by + on either side, and inside an array and an object; '
-            f'{len(strs)} strings (Latin, Bangla, combining-mark orders, Hangul, singletons, every Bengali-block code point alone and after a consonant, pairs around the decomposable characters) printed alone, nested, and concatenated; constants and callables. '
+            f'{len(strs)} strings (Latin, Bangla, combining-mark orders, Hangul, singletons, every Bengali-block code point alone and after a consonant, pairs around the decomposable characters) printed alone, nested, and concatenated; constants and callables; sequences of prints in one run (signed zeros in both orders, repeated and equal-but-differently-written values, random sequences). '
             'Checked on the implementation alone: printing is NFC-idempotent for the repertoire, number text re-reads to the same double, "" + v equals the printed text. Non-trivial = all.')
     return {'cases': cases, 'rule': rule, 'exhaustive': False, 'oracles': [oracle_c15]}
 
@@ -980,8 +1021,11 @@ def c16(tier, rng):
     def str_producers(lit):
         q = '"' + lit + '"'
         half = len(lit) // 2
-        return [q, f'("{lit[:half]}" + "{lit[half:]}")', f'({{k: {q}}}).k', f'[{q}][0]', f'rs({q})', f'({q} || 0)', f'{N["input"]}()', f'{N["keys"]}({{{lit}: 1}})[0]' if lit.isidentifier() else q,
-                f'{N["values"]}({{k: {q}}})[0]']
+        ps = [q, f'("{lit[:half]}" + "{lit[half:]}")', f'({{k: {q}}}).k', f'[{q}][0]', f'rs({q})', f'({q} || 0)', f'{N["input"]}()', f'{N["keys"]}({{{lit}: 1}})[0]' if lit.isidentifier() else q,
+              f'{N["values"]}({{k: {q}}})[0]', f'("" + {q})', f'({q} + "")']
+        if lit.isascii() and lit.isdigit() and not (len(lit) > 1 and lit[0] == '0'):
+            ps += [f'("" + {lit})', f'({lit} + "")', f'("" + ({lit} + 0))']      # the text of a number is the string
+        return ps
     def num_producers(n):
         ps = [str(n), f'({n - 1} + 1)', f'({n} & {n})', f'({n} | 0)', f'({n} ^ 0)', f'(~(~{n}))', f'({n * 2} >> 1)', f'({n * 4} / 4)', f'{N["round"]}({n}.2)', f'{N["abs"]}(0 - {n})',
               f'{N["max"]}({n}, 0)', f'rs({n})', f'[{n}][0]', f'({{k: {n}}}).k', f'({n} % {n * 7})', f'(-(0 - {n}))']
